@@ -57,6 +57,14 @@ Theorem c08_sched_isolation : C08_sched_isolation.
 Proof. exact c08_sched_isolation_proof. Qed.
 Print Assumptions c08_sched_isolation.
 
+Theorem c08_sched_hub_unaffected : C08_sched_hub_unaffected.
+Proof. exact c08_sched_hub_unaffected_proof. Qed.
+Print Assumptions c08_sched_hub_unaffected.
+
+Theorem c08_sched_complete_delivery : C08_sched_complete_delivery.
+Proof. exact c08_sched_complete_delivery_proof. Qed.
+Print Assumptions c08_sched_complete_delivery.
+
 Theorem c08_sched_no_deadlock : C08_sched_no_deadlock.
 Proof. exact c08_sched_no_deadlock_proof. Qed.
 Print Assumptions c08_sched_no_deadlock.
@@ -129,6 +137,19 @@ Example c08_sched_nonvacuous :
      AFTER block 6), then the 2 events of block 7 *)
   map (fun c => (length (r_got c), length (ms_queue (sub_of_rec c)), ms_cap (sub_of_rec c))) (g_reqs st)
     = [(3%nat, 3%nat, 102); (1%nat, 3%nat, 102)].
+Proof. vm_compute. repeat split; reflexivity. Qed.
+
+(* the same schedule followed by the remaining receives: everything has finished (the hypothesis of
+   c08_sched_complete_delivery), subscription 0 received 2 + 4 items, subscription 1 2 + 2 *)
+Example c08_sched_nonvacuous_finished :
+  let st := crun true 2 0 (cinit c08s_h0 [c08s_blk 6; c08s_blk 7] [RNum 4; RNum 5])
+                 (c08s_sched ++ repeat (TCons 0) 3 ++ repeat (TCons 1) 3) in
+  (g_ppc st = PIdle /\ g_script st = [] /\
+   map (fun c => (r_pc c, length (ms_queue (sub_of_rec c)))) (g_reqs st) = [(RDone, 0%nat); (RDone, 0%nat)]) /\
+  g_order st = [0%nat; 1%nat] /\
+  map (fun c => length (r_got c)) (g_reqs st) = [6%nat; 4%nat] /\
+  length (push_events 2 0 c08s_h0 [c08s_blk 6; c08s_blk 7]) = 4%nat /\
+  length (push_events 2 0 (hub_after 2 0 c08s_h0 [c08s_blk 6]) [c08s_blk 7]) = 2%nat.
 Proof. vm_compute. repeat split; reflexivity. Qed.
 
 (* a state in the middle of a fan-out: the event in flight has been pushed to subscription 0 and not
